@@ -171,6 +171,8 @@ def run(rep):
     n = 1200 if rep.tier == "quick" else 40000
     cases = [c for _, c in load_corpus(PID)] + [gen_case(rng) for _ in range(n)]
     nbad, mismatch = evaluate(rep, cases)
+    from props.toolscommon import tool_cli_stage
+    tool_cli_stage(rep, "bklr", random.Random(rep.seed + 909), 150 if rep.tier == "quick" else 5000)
     if (mismatch or rep.broken) and not rep.violations:
         nbad2, _ = evaluate(rep, [gen_case(rng) for _ in range(2000)])
         if nbad2 == 0:
@@ -178,7 +180,33 @@ def run(rep):
             rep.violation("; ".join(what), {"broken": rep.broken}, no_input=True)
 
 
+def replay_toolcli(rep, payload):
+    import fscheck
+    from props.toolscommon import model_ops
+    c = payload["case"]["toolcli"]
+    obs, op = fscheck.run_case(c, tool="bklr")
+    m = model_ops([{"op": "toolcli", "id": 0, "tool": "bklr", "entries": op["entries"], "cwd": op["cwd"], "env": {}, "opts": op["opts"]}]).get(0)
+    print(obs)
+    print(m)
+    return 1
+
+
+def replay_toolcli(rep, payload):
+    import fscheck
+    from props.toolscommon import model_ops
+    c = payload["case"]["toolcli"]
+    obs, op = fscheck.run_case(c, tool="bklr")
+    m = model_ops([{"op": "toolcli", "id": 0, "tool": "bklr", "entries": op["entries"], "cwd": op["cwd"], "env": {}, "opts": op["opts"]}]).get(0)
+    print(obs)
+    print(m)
+    return 1
+
+
 def replay(rep, payload):
+    if "toolcli" in payload.get("case", {}):
+        return replay_toolcli(rep, payload)
+    if "toolcli" in payload.get("case", {}):
+        return replay_toolcli(rep, payload)
     o = run_one(payload["case"])
     print(o)
     return 1 if o.get("fail") else 0
